@@ -100,7 +100,7 @@ func NewResultSpecs(results []ExtractedResult) []*ResultSpec {
 		if existing != nil {
 			// merge categories
 			for _, category := range result.Info.Categories {
-				if !utils.StringSliceContains(existing.Categories, category, false) {
+				if !utils.StringSliceContains(existing.Categories, category, true) {
 					existing.Categories = append(existing.Categories, category)
 				}
 			}
